@@ -98,6 +98,7 @@ pub fn run_check(ctx: &Ctx) -> Outcome {
         "C03" => {
             check_e1(ctx, Prop::C03, &mut out, 12000, 250000);
             check_conv(ctx, crate::conv::ConvProp::C03, &mut out, 2000, 40000);
+            check_e1_chaos(ctx, &mut out, 3000, 60000);
         }
         "C04" => {
             check_e1(ctx, Prop::C04, &mut out, 12000, 250000);
